@@ -1,9 +1,9 @@
-(* C06, reader against specification: the superblock for the REPAIRED reader (Model/CodecSuperRepaired.v
-   dec_superblock_gen true = internal/core/superblock.go with notes/fixes/c06-superblock-sizes.patch applied), for EVERY size
+(* C06, reader against specification: the superblock for the REPAIRED reader (Model/CodecSuper.v
+   dec_superblock_gen true = dec_superblock = internal/core/superblock.go with notes/fixes/c06-superblock-sizes.patch applied), for EVERY size
    of offsets and size of lengths the format allows (2, 4, 8) - the statement that is refuted for the reader as it is
    (ReaderSpecSuper.v) and proved there only for sizes 8 / 8 (ReaderSpecSuperOk.v).
    The three refutation witnesses are decoded correctly by the repaired reader (superblock_repaired_witnesses). *)
-From HV Require Import Base.Prelude Base.Outcome Base.Bytes Spec.Parse Spec.Format Model.CodecSuper Model.CodecSuperRepaired
+From HV Require Import Base.Prelude Base.Outcome Base.Bytes Spec.Parse Spec.Format Model.CodecSuper
   Proofs.RobustNoPanicBase Proofs.ReaderSpecBase Proofs.ReaderSpecSuper Proofs.ReaderSpecSuperOk.
 
 Definition repaired_view (bs : bytes) : outcome (N * N * N * N * N * N * N) :=
